@@ -215,7 +215,7 @@ func famCancel(w *World) {
 		// healthy connection: with the option on, the peer must be told
 		w.eval("C14.cancel-frame")
 		if sendCancel && r.Cancelled && code == tchannel.ErrCodeCancelled && r.WroteEv != 0 && r.CancelEv > r.WroteEv && len(msgs) > 0 && cutEv == 0 &&
-			simrt.Cur().StallTime == r.Stall0 { // (no goroutine was held back since: the writer had its chance)
+			simrt.Cur().Stalled() == r.Stall0 { // (no goroutine was held back since: the writer had its chance)
 			healthy := true
 			for _, l := range w.Net.Links {
 				if l.A.Owner == cli.Name && (l.CutEv != 0 || l.CloseEv[0] != 0 || l.CloseEv[1] != 0) {
